@@ -33,7 +33,7 @@ def judge(c, text):
     if not login and (k in world.STATE_KINDS or k in world.TYPE2_KINDS):
         if o != "exc:RuntimeError": return "empty login reply but the call ended in %s" % o
         if len(fs) != 1: return "empty login reply but %d frames were written" % len(fs)
-    if o in ("ok:0", "ok:1") and len(fs) >= 2 and k != 12:
+    if o in ("ok:0", "ok:1") and len(fs) >= 2:
         reply = replies[len(fs) - 1] if len(replies) >= len(fs) else b""
         if (o == "ok:1") != (len(reply) > 0): return "generic response reports successful=%s for a reply of %d bytes" % (o[3:], len(reply))
     return "ok"
